@@ -216,7 +216,32 @@ func (d *D) Regen(idx int, ctx *core.Ctx) *core.Scenario { return d.Base(idx, ct
 
 // reference computes what the formatted text of a file is, with the real
 // parser and formatter. ok=false: the file does not parse.
+type refEntry struct {
+	key string
+	out string
+	ok  bool
+}
+
+var refCache []refEntry
+
+// reference is memoised: the same file content is judged after every one of
+// the ~100 runs of a scenario.
 func reference(name, content string) (string, bool) {
+	key := name + "\x00" + content
+	for i := range refCache {
+		if refCache[i].key == key {
+			return refCache[i].out, refCache[i].ok
+		}
+	}
+	out, ok := computeReference(name, content)
+	if len(refCache) >= 12 {
+		refCache = refCache[1:]
+	}
+	refCache = append(refCache, refEntry{key, out, ok})
+	return out, ok
+}
+
+func computeReference(name, content string) (string, bool) {
 	one := func(src string) (out string, ok bool) {
 		defer func() {
 			if recover() != nil {
